@@ -483,7 +483,7 @@ var notCovered = map[string][]string{
 		"loader, compiler, checker and OpenAPI conversion are not under contract: their panics are not excluded",
 		"schema scanner: run-time panics are excluded in every state function, the two closures, Next (first call at or before the end of the text; later calls are not covered), the queue and stack operations and New; Length() is NOT covered (its bound needs the push-down discipline of the event stack, which the thin invariant does not carry); explicit error-valued panics are allowed exits",
 		"enum rule scanner: run-time panics are excluded in every state method, Next and the queue/stack operations; explicit error-valued panics (empty-stack Pop, json.Guess on an unclassifiable literal inside validateValue) and enum.Enum's own methods (compile, Values, Len) are not",
-		"recursion: termination is proved for checker.resolveRootType (key-shortcut type resolution) and for appendTypeValidators/buildList (checker list construction, guard addedTypeNames); the guards of collectAllowedJsonTypes (foundTypeNames), the loader (processingTypes) and the example builder are not under a termination contract; stack depth as such and memory exhaustion are not modelled",
+		"recursion: termination is proved for checker.resolveRootType (key-shortcut type resolution) and for appendTypeValidators/buildList (checker list construction, guard addedTypeNames) and for collectAllowedJsonTypes (guard foundTypeNames); the recursion checker's walk, the guards of the loader (processingTypes) and the example builder are not under a termination contract; stack depth as such and memory exhaustion are not modelled",
 		"known finding: Number scanner exponent magnitude above 2^40 (make with a huge length)",
 	},
 	"C04": {"only the integer parsers and the constraint constructors that use them; float parsing (strconv) is external"},
